@@ -63,6 +63,7 @@ unsafe impl GlobalAlloc for Interpose {
         unsafe { System.realloc(ptr, layout, new_size) }
     }
     unsafe fn dealloc(&self, ptr: *mut u8, layout: Layout) {
+        let mut quarantine = false;
         let _ = RANGES.try_with(|r| {
             if let Ok(mut r) = r.try_borrow_mut() {
                 if !r.shared.is_empty() {
@@ -75,6 +76,7 @@ unsafe impl GlobalAlloc for Interpose {
                                 r.freed.push((q, pa));
                             }
                             r.shared.swap_remove(k);
+                            quarantine = true;
                         } else {
                             k += 1;
                         }
@@ -82,6 +84,10 @@ unsafe impl GlobalAlloc for Interpose {
                 }
             }
         });
-        unsafe { System.dealloc(ptr, layout) }
+        // memory the device may still write to (in-place platform) is reported and then kept out
+        // of circulation: the use-after-free becomes an event instead of corrupting the harness
+        if !quarantine {
+            unsafe { System.dealloc(ptr, layout) }
+        }
     }
 }
